@@ -12,6 +12,7 @@ re-tokenizes to the same tokens (needs tokenizer ∘ parser ∘ render as one ob
 -/
 import Emboss.Lemmas.FmtSanity
 import Emboss.Lemmas.FmtTableOK
+import Emboss.Lemmas.FmtNormalOK
 namespace Emboss.Fmt
 open Emboss.Generated.FmtTable
 
@@ -114,6 +115,91 @@ example : wf formatters exTree = true ∧ layoutBlank exTree = true ∧
     formatTree 3 exTree = some (.str "-- hi\n# c\n".toList) ∧
     contentLeaves exTree = ["-- hi  ".toList, "# c".toList] := by
   decide +kernel
+
+/-! ## Normal form and fixed point -/
+
+/-- Second table obligation, decided in the kernel over the whole regenerated registry: in
+every registered production each right-hand-side position that holds a layout terminal
+(Indent, Dedent, newline) is one the handler ignores, and a `Documentation` terminal is
+only ever handed to `_doc` (which strips its trailing blanks before anything can measure
+them — the repair of finding `inline-doc-trailing-blanks-widen-column`). -/
+theorem C11_table_normal : tableNormal formatters = true := table_normal
+
+/-- **Formatting factors through a normal form of the parse tree**: two trees with the same
+productions and the same tokens, except for the *texts of layout tokens* (the source's
+indentation, line ends) and *trailing blanks of Documentation tokens* (`equivT`), are
+formatted to the same text — for every production, every indent width.  In particular the
+output never depends on how the source was indented or spaced.
+
+Full statement wanted: also "… and trailing blanks of Comment tokens".  Missing: a
+relational version of the induction (values that differ in the trailing blanks of a
+row's last column until `_render_row_to_text` strips them); the oracle covers it. -/
+theorem C11_format_factors_partial (iw : Nat) (t t' : Tree)
+    (hw : wf formatters t = true) (hroot : rootSym formatters t = startSymbol)
+    (he : equivT t t' = true) :
+    formatTree iw t' = formatTree iw t := by
+  obtain ⟨v, hv, _, _⟩ := fold_ok formatters iw C11_table_ok.1 t hw
+  obtain ⟨v', hv', hr⟩ := fold_equiv formatters iw C11_table_ok.1 C11_table_normal t t' hw he v hv
+  have : v = v' := by
+    cases t with
+    | node p cs => exact hr
+    | tok s x =>
+      simp only [rootSym] at hroot
+      subst hroot
+      simpa [Res, isLayoutSym, startSymbol, nlSym, docSym] using hr
+  unfold formatTree
+  rw [hv, hv', this]
+
+/-- **Fixed point, partial**: if `t` is formatted to `out`, then every tree `t2` equivalent to
+`t` is formatted to `out` as well.  With `t2` := the parse tree of `out` this is
+`fmt (fmt t) = fmt t`.
+
+Full statement wanted: `∀ t, fmt (parse (fmt t)) = fmt t`.  Missing, decided by the
+oracle on the real code for every generated case: that the parse tree of the formatted
+text *is* equivalent to `t` — same token sequence (`C11_tokens_preserved` +
+`C11_render_separable` give it on the character level) **and** same comment-line /
+blank-line structure (the formatter's own normalisation of blank lines must be stable
+under re-parsing; needs tokenizer ∘ parser as one object), and Comment tokens without
+trailing blanks.  The harness counts on how many of its cases the hypothesis holds
+(`fixed_point_theorem_applies`: there idempotence is a consequence of this theorem and the
+byte-identical correspondence); for the others it is the oracle's verdict alone. -/
+theorem C11_format_fixed_point_partial (iw : Nat) (t t2 : Tree) (out : Str)
+    (hw : wf formatters t = true) (hroot : rootSym formatters t = startSymbol)
+    (hfmt : formatTree iw t = some (.str out)) (he : equivT t t2 = true) :
+    formatTree iw t2 = some (.str out) := by
+  rw [C11_format_factors_partial iw t t2 hw hroot he]; exact hfmt
+
+/-! Non-vacuity: `exTree` is the parse tree of "-- hi  \n# c\n" and is formatted to
+"-- hi\n# c\n", whose parse tree is `exTree2` (documentation without the trailing blanks,
+other line-end texts); the two are equivalent, so `exTree2` is a fixed point. -/
+
+def exTree2 : Tree :=
+  .node (ix "module" ["comment-line*", "doc-line*", "import-line*", "attribute-line*", "type-definition*"]) [
+    .node (ix "comment-line*" []) [],
+    .node (ix "doc-line*" ["doc-line", "doc-line*"]) [
+      .node (ix "doc-line" ["doc", "Comment?", "eol"]) [
+        .node (ix "doc" ["Documentation"]) [.tok "Documentation" "-- hi".toList],
+        .node (ix "Comment?" []) [],
+        .node (ix "eol" ["\"\\n\"", "comment-line*"]) [
+          .tok "\"\\n\"" "\r\n".toList,
+          .node (ix "comment-line*" ["comment-line", "comment-line*"]) [
+            .node (ix "comment-line" ["Comment?", "\"\\n\""]) [
+              .node (ix "Comment?" ["Comment"]) [.tok "Comment" "# c".toList],
+              .tok "\"\\n\"" "\n".toList],
+            .node (ix "comment-line*" []) []]]],
+      .node (ix "doc-line*" []) []],
+    .node (ix "import-line*" []) [],
+    .node (ix "attribute-line*" []) [],
+    .node (ix "type-definition*" []) []]
+
+example : equivT exTree exTree2 = true ∧ exTree ≠ exTree2 := by
+  constructor
+  · decide +kernel
+  · intro h; simp [exTree, exTree2] at h
+
+example : formatTree 3 exTree2 = some (.str "-- hi\n# c\n".toList) :=
+  C11_format_fixed_point_partial 3 exTree exTree2 _ (by decide +kernel) (by decide +kernel)
+    (by decide +kernel) (by decide +kernel)
 
 /-! ## The self-check -/
 
